@@ -1,4 +1,5 @@
 import Emerge.Reader
+import Emerge.ReaderNext
 import Emerge.Proto
 /-
   Driver command for the reader model: `reader <n> <hex source> <ops>` with ops `n` (next), `r<size>` (Retract of
@@ -32,6 +33,36 @@ def cmdReader (fields : List String) : String :=
       let c := cRun src bs.size n (init src bs.size n (fun _ => 0)) ops
       let a := aRun src bs.size n ⟨0, 0, 0⟩ ops
       ",".intercalate (c.map outStr) ++ " | " ++ (match a with | some o => ",".intercalate (o.map outStr) | none => "CONTRACT")
+    | none => "BAD"
+  | _ => "BAD"
+
+/-- `readernext <n> <hex source> <ops>`: the rune-level calls of the emitted reader - `N` = Next, `R` = Retract (gives back
+    the last rune read since the last Lexeme/Skip, if any), `l` = Lexeme, `s` = Skip. Prints the outputs of the model. -/
+def cmdReaderNext (fields : List String) : String :=
+  match fields with
+  | [ns, hexsrc, opss] =>
+    match ns.toNat? with
+    | some n =>
+      let bs := (if hexsrc == "-" then [] else bytesOfHex hexsrc).toArray
+      let src : Nat → Nat := fun i => bs.getD i 0
+      let step := fun (acc : RState × List Nat × List String) (op : String) =>
+        let (s, sizes, outs) := acc
+        if op == "N" then
+          match nextRune src bs.size n s with
+          | (.rune r size, s') => (s', size :: sizes, outs ++ ["U" ++ toString r])
+          | (.eof, s') => (s', sizes, outs ++ ["E"])
+          | (.invalid, s') => (s', sizes, outs ++ ["I"])
+        else if op == "R" then
+          match sizes with
+          | size :: rest => (retract n s size, rest, outs ++ ["-"])
+          | [] => (s, [], outs ++ ["-"])
+        else if op == "l" then
+          let r := lexeme s
+          (r.2, [], outs ++ ["L" ++ ".".intercalate (r.1.map toString)])
+        else if op == "s" then (skip s, [], outs ++ ["-"])
+        else (s, sizes, outs ++ ["?"])
+      let r := (opss.splitOn ",").foldl step (init src bs.size n (fun _ => 0), [], [])
+      ",".intercalate r.2.2
     | none => "BAD"
   | _ => "BAD"
 
